@@ -319,6 +319,8 @@ def model_expr(c, mode):
 
 
 def oracle_expr(c, mode, obs):
+    if isinstance(obs, int) or obs[0] != 'list':
+        return 'false'     # the whole case crashed, hung or could not be parsed: nothing satisfies the property
     return 'holds_case %s %s %s %s %s %s %s' % (z(c['bits']), z(c['init']), z(c['session']), z(c['pos0']),
                                                  c_segs(c), c_ops(c), to_coq(obs))
 
